@@ -142,12 +142,12 @@ def progR (fresh : Nat) : Reader Prog := do
   | "cset" => pure (cubeSetterProg (← cubeSetterR) fresh)
   | "cclone" => pure cubeCloneProg
   | "cpoke" => pure (pokeSlotProg (← slotKey) fresh)
-  | "igrid" => do let f ← bool; pure (imageOpProg f .gridOfImage fresh)
-  | "bgrid" => do let f ← bool; pure (imageOpProg f (.gridOfBatch (← nat)) fresh)
-  | "ishallow" => do let f ← bool; pure (imageOpProg f .shallow fresh)
-  | "ifun" => pure (imageOpProg false .functional fresh)
-  | "ideep" => pure (imageOpProg false .deepImage fresh)
-  | "bdeep" => pure (imageOpProg false (.deepBatch (← nat)) fresh)
+  | "igrid" => pure (imageOpProg .gridOfImage fresh)
+  | "bgrid" => pure (imageOpProg (.gridOfBatch (← nat)) fresh)
+  | "ishallow" => pure (imageOpProg .shallow fresh)
+  | "ifun" => pure (imageOpProg .functional fresh)
+  | "ideep" => pure (imageOpProg .deepImage fresh)
+  | "bdeep" => pure (imageOpProg (.deepBatch (← nat)) fresh)
   | "igridset" => pure (imageGridSetProg none)
   | "bgridset" => pure (imageGridSetProg (some (← nat)))
   | "ipoke" => pure (imagePokeProg fresh)
